@@ -9,6 +9,7 @@ import json
 import os
 import re
 
+from ..runner import run_tasks
 from ..core import Check, audit, import_repo
 from ..lean import Driver, hx
 
@@ -16,7 +17,9 @@ LEVEL_NOTE = ("modelled, not verified: Python's int() literal syntax, str.split,
               "Model/Index.lean; replies with non-ASCII characters are outside the modelled domain")
 RULE = ("exhaustive: every reply of length <= 4 (thorough: <= 5) over {0,1,2,9,-,',',' ',+,a,_} x list lengths {1,3,10}; "
         "all ordered pairs of a 40-path set for the scope test; seeded random entry lists for the three sort modes; "
-        "distinct by input; every case reaches the parser / scope test / sorter")
+        "distinct by input; every case reaches the parser / scope test / sorter; world level: restore worlds incl. a well-filled "
+        "trash with ranges across the two-digit boundary; prompt race: another command removes a different entry while "
+        "trash-restore waits at its prompt (one preemption at each step) - the reply means the list as printed")
 ALPHA = "0129-, +a_"
 INT_RE = re.compile(r"^[ \t\n\r\x0b\x0c\x1c-\x1f]*\+?[0-9]+(_[0-9]+)*[ \t\n\r\x0b\x0c\x1c-\x1f]*$")
 
@@ -46,6 +49,61 @@ PATHS = ["/", "/a", "/a/foo", "/a/foobar", "/a/foo/bar", "/a/foo bar", "/ab", "/
          "/a/a", "/a/a/a", "/aa/a"]
 
 
+def prompt_race_task(task):
+    """the numbers of the reply refer to the list AS PRINTED: while trash-restore waits at its prompt another command
+    (trash-rm, a second trash-restore) takes a different entry out of the trash; the reply still restores the entries that
+    were printed at the chosen indices.  One preemption of trash-restore at each of its steps, the other command run from
+    start to end there."""
+    from ..model import W, cmd_argv, snap_to_state
+    from ..runner import jsonable, task_rng
+    from ..sandbox import MODEL_ROOT as R, run_concurrent
+    rng = task_rng("C13race", task["seed"], task["i"])
+    w = W()
+    home = w.dir(R + b"/home/u")
+    t = home + b"/.local/share/Trash"
+    w.dir(t, 0o700)
+    w.dir(t + b"/files", 0o700)
+    w.dir(t + b"/info", 0o700)
+    w.dir(home + b"/work")
+    names = [b"a", b"b", b"c", b"d"][:rng.choice([3, 4])]
+    for k, nm in enumerate(names):
+        w.file(t + b"/info/" + nm + b".trashinfo", b"[Trash Info]\nPath=" + home + b"/work/" + nm + b"\nDeletionDate=2024-01-0%dT10:00:00\n" % (k + 1), 0o600)
+        w.file(t + b"/files/" + nm, b"payload " + nm)
+    victim = 0                                    # the other command takes entry 0 ...
+    chosen = rng.choice([1, len(names) - 1])      # ... the reply names a later one
+    other = rng.choice(["rm", "restore"])
+    world = w.world(env={"HOME": home}, uid=1000, cwd=home, cmd="restore", opts={}, args=[], argv=[], stdin=None,
+                    meta={"entries": [], "tdirs": [], "profile": "race", "payload_kinds": []})
+    p0 = {"cwd": home, "cmd": "restore", "args": [], "opts": {"path": b"/", "sort": "path"}, "stdin": b"%d\n" % chosen}
+    p0["argv"] = cmd_argv(dict(world, **p0))
+    if other == "rm":
+        p1 = {"cwd": home, "cmd": "rm", "args": [home + b"/work/" + names[victim]], "opts": {}, "stdin": None}
+    else:
+        p1 = {"cwd": home, "cmd": "restore", "args": [], "opts": {"path": b"/", "sort": "path"}, "stdin": b"%d\n" % victim}
+    p1["argv"] = cmd_argv(dict(world, **p1))
+    bad, runs = [], 0
+    for k in range(0, 120):
+        obs = run_concurrent(world, [p0, p1], [0] * k + [1] * 3000)
+        runs += 1
+        after = snap_to_state(obs["after"])
+
+        def printed(pr):
+            return {int(m_.group(1)): m_.group(2) for m_ in re.finditer(rb"(?m)^ *(\d+) \S+ \S+ (/.*)$", pr["stdout"])}
+        want = printed(obs["procs"][0]).get(chosen)
+        legit = {want}
+        if other == "restore":
+            legit.add(printed(obs["procs"][1]).get(victim))
+        wrong = [home + b"/work/" + nm for nm in names if home + b"/work/" + nm in after and home + b"/work/" + nm not in legit]
+        if want is not None and obs["procs"][0]["exit"] == 0 and (want not in after or wrong):
+            bad.append({"preempted_after_steps": k, "other": other, "reply": chosen, "restored_instead": [repr(x) for x in wrong],
+                        "chosen_restored": want in after, "stdout": repr(obs["procs"][0]["stdout"][-300:]),
+                        "world": jsonable(world), "procs": jsonable([p0, p1])})
+            break
+        if obs["executed"][:k].count(0) < k:
+            break
+    return {"key": (other, len(names), chosen, runs), "other": other, "runs": runs, "bad": bad}
+
+
 def run(tier, seed):
     ck = Check("C13", tier, seed)
     info = audit("C13")
@@ -61,7 +119,7 @@ def run(tier, seed):
         for ln in range(0, maxlen + 1):
             for s in itertools.product(ALPHA, repeat=ln):
                 s = "".join(s)
-                for n in (1, 3, 10):
+                for n in (1, 3, 10, 12):
                     try:
                         r = ("ok", list(parse_indexes(s, n).all_indexes()))
                     except InvalidEntry:
@@ -166,9 +224,16 @@ def run(tier, seed):
                     ck.violation("every-sort-mode-works", {"kind": "sort", "mode": mname}, {"kind": "sort", "mode": mname, "impl": got})
         ck.traces = ck.evals
         ck.exhaustive = False
-        ck.extra["exhaustive_subdomains"] = ["replies of length <= %d over %r x n in {1,3,10}" % (maxlen, ALPHA), "ordered pairs of %d paths" % len(PATHS)]
+        ck.extra["exhaustive_subdomains"] = ["replies of length <= %d over %r x n in {1,3,10,12}" % (maxlen, ALPHA), "ordered pairs of %d paths" % len(PATHS)]
         from . import restoreworlds
         restoreworlds.add_world_level(ck, "C13", tier, seed)
+        for r in run_tasks(prompt_race_task, [{"seed": seed, "i": i} for i in range(3 if tier == "quick" else 40)]):
+            if "machinery" in r:
+                from ..lean import MachineryError
+                raise MachineryError(r["machinery"])
+            ck.case(("prompt-race", r["key"]), tags=["prompt-race:" + r["other"]], sample={"runs": r["runs"], "other": r["other"]})
+            for b in r["bad"]:
+                ck.violation("the-entries-printed-at-the-chosen-indices", {"kind": "prompt-race", "other": r["other"]}, b)
     except ImportError:
         ck.notes.append("world-level part not built yet")
     finally:
